@@ -2,6 +2,7 @@
 # prints the mutation-agent prompt for a property id (only the property text + worktree path)
 import json,sys
 pid=sys.argv[1]; wt=sys.argv[2] if len(sys.argv)>2 else f"/tmp/wt/{pid}"
+n1=int(sys.argv[3]) if len(sys.argv)>3 else 1; n2=n1+1
 for l in open('/verif/properties.jsonl'):
     p=json.loads(l)
     if p['id']==pid: break
@@ -17,9 +18,9 @@ Here is a semantic property that the unchanged code is supposed to satisfy:
 
 Your task: produce TWO different, independent changes to the NON-test Go source of the node, each of which breaks this property, while (a) the repository still compiles (go build ./... and go vet are not required, but `go build ./...` must succeed) and (b) the existing tests of the packages you touched, and of packages that import them closely (at least: go test -vet=off -count=1 for the touched package and for ./blockchain/ ./core/... ./mempool/ if you touched core or blockchain code), still pass, unedited. Each change must need something specific to manifest: an unusual input, a boundary value, a particular sequence of operations, a particular height/era/configuration, or two cooperating sites that each look fine alone. Do NOT make changes that ordinary use or the existing tests would expose at once. Make the changes look like plausible maintenance edits (refactors, 'optimisations', off-by-one slips, dropped guards, wrong operator/variable), small (1-15 lines each).
 
-For each change i in {{1,2}} deliver, under {wt}/_seed/<i>/ :
-  - patch.diff : output of `git diff` for that change alone relative to the worktree HEAD (apply each change on a clean tree: use `git stash`/`git checkout -- .` between the two so the two patches are independent and each applies to HEAD by itself with `git apply`).
-  - a demonstration: a Go test file (demo_test.go, placed by you into the right package directory when run; say which directory in meta.json) or a small program that FAILS with the change applied and PASSES on the unchanged tree. Show you ran it both ways.
-  - meta.json : {{"property": "{pid}", "summary": "...what the change does...", "needs": "...what specific input/sequence/config is needed for it to manifest...", "files": [...], "demo_dir": "<package dir the demo_test.go goes into>", "demo_cmd": "<command to run the demo>", "ran": ["commands you ran and their outcome"]}}
+Number your two changes {n1} and {n2}. Deliver into the directory /tmp/seed/{pid}/ (create it; it is outside the worktree), for each change N in {{{n1},{n2}}}:
+  - /tmp/seed/{pid}/patch_N.diff : output of `git diff` for that change alone relative to the worktree HEAD (apply each change on a clean tree: use `git checkout -- .` between the two so the two patches are independent and each applies to HEAD by itself with `git apply`).
+  - /tmp/seed/{pid}/demo_N_test.go : a demonstration Go test file (ordinary `func TestXxx(t *testing.T)` functions with names unique to you, e.g. TestSeed{pid}N...; package clause of the target package) that FAILS with the change applied and PASSES on the unchanged tree. Its FIRST line must be a comment of the exact form `// place in: <package dir relative to the repo root>/` (e.g. `// place in: blockchain/`) naming the directory the file is copied into to run it (as zz_seed_demo_test.go). It must not depend on other files you add. Show you ran it both ways.
+  - /tmp/seed/{pid}/notes_N.md : what the change does; a section headed "## What is needed for it to manifest" describing the specific input/sequence/config; the commands you ran and their outcome.
 
-Finish with the worktree back at a clean HEAD checkout (git checkout -- . ; untracked _seed/ directory stays). In your final message, list for each change: the file/function changed, one sentence on why it violates the property, and what is needed to trigger it. Keep the final message short.""")
+Finish with the worktree back at a clean HEAD checkout (git checkout -- . and remove any untracked files you added). In your final message, list for each change: the file/function changed, one sentence on why it violates the property, and what is needed to trigger it. Keep the final message short.""")
